@@ -116,6 +116,8 @@ func doDump(w *World, what string) {
 		dumpNondet(w)
 	case what == "exportfilters":
 		dumpExportFilters(w)
+	case what == "bce":
+		dumpBCE(w, w.Repo)
 	case what == "blockloops":
 		br := blockReachable(w)
 		var names []string
